@@ -194,7 +194,7 @@ func (r FileReplacer) Replace(d data.Data, cl Changelog) (*ast.File, error) {
 		// was too eager. For example, trying to place "foo.Bar"
 		// (SelectorExpr) where only an identifier is allowed (in a variable
 		// declaration name, for example).
-		if give.Type().AssignableTo(v.Type()) {
+		if give.Type().AssignableTo(v.Type()) && !namesOnly(m, give) {
 			v.Set(give)
 		}
 	}
@@ -210,6 +210,22 @@ func (r FileReplacer) Replace(d data.Data, cl Changelog) (*ast.File, error) {
 
 	err = r.Imports.Cleanup(d, file, newImports)
 	return file, err
+}
+
+// namesOnly reports whether the match stands where the language allows only
+// a name although the syntax tree has room for any expression (an operand on
+// the left of ":=", also in a range clause), and give is not a name.
+func namesOnly(m *SearchResult, give reflect.Value) bool {
+	if _, ok := give.Interface().(*ast.Ident); ok {
+		return false
+	}
+	switch p := m.parent.(type) {
+	case *ast.AssignStmt:
+		return p.Tok == token.DEFINE && m.name == "Lhs"
+	case *ast.RangeStmt:
+		return p.Tok == token.DEFINE && (m.name == "Key" || m.name == "Value")
+	}
+	return false
 }
 
 type _fileMatchKey struct{}
